@@ -43,7 +43,14 @@ SIB_EXCEPT = {
 }
 
 
+# table accessors of State: whether an arm goes through the accessor, indexes the slice it returns, or uses a slice that
+# was hoisted out of the loop is a matter of spelling, not of what the arm decodes
+ACCESSORS = {"State::dist_table_get", "State::len_table_get", "State::dist_table_ref", "State::len_table_ref"}
+
+
 def _exc(kind, arm, side, item):
+    if kind == "calls" and item in ACCESSORS:
+        return True
     return (kind, arm, side, item) in SIB_EXCEPT or (kind, "*", side, item) in SIB_EXCEPT
 
 
